@@ -144,6 +144,34 @@ def check(c):
             'itask.waiting_on_job_prep', 'False'),
             'itask.waiting_on_job_prep = False')
 
+    # ---- retries already used up stay used up across a restart: the retry
+    # timers are restored (with their consumed count) for every pooled task,
+    # whatever its status -- a task waiting for its retry most of all
+    lt = c.func(TP, 'TaskPool.load_db_task_action_timers')
+    rs_ = [n for n in c.idx.walk(lt.node) if isinstance(n, ast.Assign)
+           and isinstance(n.targets[0], ast.Subscript)
+           and norm(n.targets[0].value) == 'itask.try_timers']
+    c.floor('C02.retry-restore', f'{lt.fq} :: itask.try_timers[..] restored',
+            len(rs_), 1)
+    for n in rs_:
+        c.ob('C02.retry-restore', c.key(n, lt)[:90] + ' with the recorded '
+             'count', bool(c.find(n.value, 'TaskActionTimer(ctx, delays, num, '
+                                  'delay, timeout)')), c.where(n, lt), '')
+        c.guard_only('C02.retry-restore', n, [
+            "ctx_key[0] == 'try_timers'", "!(ctx_key == 'poll_timer')",
+            '!(itask is None)'], lt,
+            what='restored whatever the task status;')
+    # (an early exit in front of the branch would not show as a condition of
+    # the store: the loader does not consult the task's state at all)
+    looks = [n for n in c.idx.walk(lt.node) if isinstance(n, ast.Attribute)
+             and n.attr in ('state', 'status') and isinstance(
+                 n.value, ast.Name) and n.value.id == 'itask']
+    c.ob('C02.retry-restore', f'{lt.fq} :: does not filter on the task '
+         'state', not looks, c.where(looks[0], lt) if looks else
+         c.where(lt.node, lt), '' if not looks else 'timers are restored only '
+         'for some task states: a task waiting for its retry comes back with '
+         'a fresh set of retries')
+
     # ---- failed / submit-failed only when no retry remains
     pm = c.func(TEM, 'TaskEventsManager.process_message')
     gen = c.find(pm, 'itask.state.outputs.set_message_complete(task_output, '
@@ -244,6 +272,14 @@ def _enclosing_if(c, n, test_pat):
 
 
 VARIANTS = [
+    ('retry-timers-only-for-active-tasks', 'cylc/flow/task_pool.py',
+     '''        elif ctx_key[0] == "try_timers":
+            itask = self._get_task_by_id(id_)
+            if itask is None:
+                return''', '''        elif ctx_key[0] == "try_timers":
+            itask = self._get_task_by_id(id_)
+            if itask is None or not itask.state(*TASK_STATUSES_ACTIVE):
+                return''', 'C02.retry-restore'),
     ('prep-flag-kept-on-platform-failure', 'cylc/flow/task_job_mgr.py',
      '''        itask.waiting_on_job_prep = False
         itask.local_job_file_path = None
